@@ -1,13 +1,17 @@
 import HapVerif.Model.C02
 import HapVerif.Generated.Facts
 import HapVerif.Props.C02Pair
+import HapVerif.Props.C02Cookie
 /-!
 # C02 — running HAProxy never diverges from disk after runtime updates (M-Dyn)
 
 Model: `HapVerif.C02.checkBackendPair` (dynupdate.go) + the HAProxy runtime server table
 (`load`, `applyCmd`).  The deep theorems (`pair_sound`, `pair_fault`, `names_perm`,
 `len_preserved`, `no_oob`) live in `Props/C02Pair.lean` once closed; this file holds the decision
-structure around the pairing loop and the witnesses of the repaired defect.
+structure around the pairing loop and the witnesses of the repaired defect.  The cookie column of the runtime table
+(`pair_sound_cookie`, `pair_cookie_guard`, `history_sound_cookie`, the witnesses of the seeded variant C02e and of the
+free-slot defect repaired by 91faf0b) lives in
+`Props/C02Cookie.lean`.
 -/
 namespace HapVerif.C02
 
@@ -113,5 +117,38 @@ theorem checkBackendPair_oracle_none_ok (old cur : Back) (same : Bool) (sc : Lis
     (hN : namesNodup old.eps = true) (hNc : namesNodup cur.eps = true) :
     oracle old true (checkBackendPair old cur same sc) = none :=
   C02Pair.checkBackendPair_oracle_none_ok old cur same sc hor hr hE hN hNc
+
+/-- P5 with the cookie column ("preserved cookie values"): the running table — every server with the cookie it was
+LOADED with, `set server` cannot change it — equals the table loaded from the written endpoints -/
+theorem pair_sound_cookie (aff : Bool) (old cur : Back) (same : Bool) (sc : List Resp) (hr : cur.resolver = false)
+    (hE : cur.eps.all (·.enabled) = true) (hN : namesNodup old.eps = true) :
+    (checkBackendPair old cur same sc).updated = true →
+    sortNC (normC (tableC (cookieScope aff cur.cookiePreserve) old.eps (checkBackendPair old cur same sc).cmds)) =
+      sortNC (normC (loadC (cookieScope aff cur.cookiePreserve) (checkBackendPair old cur same sc).cur)) :=
+  C02Cookie.pair_sound_cookie aff old cur same sc hr hE hN
+
+/-- P5c: the preserve guards and the copy of the free slots — a differing cookie means reload; every endpoint of
+the result, free slots included, keeps the cookie HAProxy holds for its name -/
+theorem pair_cookie_guard (old cur : Back) (same : Bool) (sc : List Resp) (hr : cur.resolver = false)
+    (hd : cur.dynUpdate = true) (hp : cur.cookiePreserve = true)
+    (hE : cur.eps.all (·.enabled) = true) (hN : namesNodup old.eps = true) :
+    (checkBackendPair old cur same sc).updated = true →
+    ∀ e ∈ (checkBackendPair old cur same sc).cur, ∃ o ∈ old.eps, o.name = e.name ∧ o.cookie = e.cookie :=
+  C02Cookie.pair_cookie_guard old cur same sc hr hd hp hE hN
+
+/-- P5h: history form — every sequence of accepted updates between two reloads (`C02Cookie.Reach`), whatever was
+sent: HAProxy holds for every server, free slots included, the cookie of the server line written last -/
+theorem history_sound_cookie (b0 : Back) (hN : namesNodup b0.eps = true) (eps : List EP)
+    (h : C02Cookie.Reach b0 eps) (cmds : List Cmd) :
+    sortNC (cookieRows (tableC true b0.eps cmds)) = sortNC (cookieRows (loadC true eps)) :=
+  C02Cookie.history_sound_cookie b0 hN eps h cmds
+
+/-- P5 with cookies through the executable oracle -/
+theorem checkBackendPair_oracleC_none (aff : Bool) (old cur : Back) (same : Bool) (sc : List Resp)
+    (hor : old.resolver = false) (hr : cur.resolver = false) (hE : cur.eps.all (·.enabled) = true)
+    (hN : namesNodup old.eps = true) (hNc : namesNodup cur.eps = true) :
+    oracleC (cookieScope aff cur.cookiePreserve) old
+      ((sc.take (checkBackendPair old cur same sc).cmds.length).all Resp.ok) (checkBackendPair old cur same sc) = none :=
+  C02Cookie.checkBackendPair_oracleC_none aff old cur same sc hor hr hE hN hNc
 
 end HapVerif.C02
